@@ -4,7 +4,8 @@
  *  C <id> <entry> <params> <dictmode> <dicthex|-> <inputhex|->          -> <id> OK <framehex> | <id> ERR <name>
  *      entry   : compress2 | simple:<level> | cctx:<level> | advanced:<level> | usingDict:<level> | usingCDict:<level>
  *      params  : "-" or id:value,id:value,...   (ZSTD_CCtx_setParameter, numeric ids)
- *      dictmode: - | load | loadref | prefix | cdict | cdictref          (how the dictionary is given for compress2)
+ *      entry   : ... | blcdict:<level> (buffer-less API + CDict, non-contiguous segments)
+ *      dictmode: - | load | loadref | prefix | cdict | cdictref | cdictraw | loadraw   (how the dictionary is given for compress2)
  *  S <id> <params> <dictmode> <dicthex|-> <ops> <inputhex|-> [pledged]    streaming compression history
  *      ops     : in:cap:dir;in:cap:dir;...  (dir 0 continue 1 flush 2 end ; in = bytes offered, cap = output capacity)
  *      -> <id> OK <framehex> <calls>   calls = consumed:produced:ret(or E<name>);...   (stops at first error)
@@ -65,6 +66,14 @@ static size_t give_dict(ZSTD_CCtx* c, const char* mode, const unsigned char* d, 
     if (!strcmp(mode, "load")) return ZSTD_CCtx_loadDictionary(c, d, dn);
     if (!strcmp(mode, "loadref")) return ZSTD_CCtx_loadDictionary_byReference(c, d, dn);
     if (!strcmp(mode, "prefix")) return ZSTD_CCtx_refPrefix(c, d, dn);
+    if (!strcmp(mode, "loadraw")) return ZSTD_CCtx_loadDictionary_advanced(c, d, dn, ZSTD_dlm_byCopy, ZSTD_dct_rawContent);
+    if (!strcmp(mode, "cdictraw")) {   /* the bytes are content only, whatever they look like */
+        int lvl = 3; ZSTD_CCtx_getParameter(c, ZSTD_c_compressionLevel, &lvl);
+        if (g_cdict) ZSTD_freeCDict(g_cdict);
+        g_cdict = ZSTD_createCDict_advanced(d, dn, ZSTD_dlm_byCopy, ZSTD_dct_rawContent, ZSTD_getCParams(lvl, 0, dn), ZSTD_defaultCMem);
+        if (!g_cdict) return (size_t)-ZSTD_error_memory_allocation;
+        return ZSTD_CCtx_refCDict(c, g_cdict);
+    }
     if (!strcmp(mode, "cdict") || !strcmp(mode, "cdictref")) {
         int lvl = 3; ZSTD_CCtx_getParameter(c, ZSTD_c_compressionLevel, &lvl);
         if (g_cdict) ZSTD_freeCDict(g_cdict);
@@ -93,6 +102,23 @@ static void cmd_C(char** t) {
     } else if (!strncmp(entry, "usingDict", 9)) { r = ZSTD_compress_usingDict(c, out, cap, in, n, d, dn, level);
     } else if (!strncmp(entry, "usingCDict", 10)) {
         ZSTD_CDict* cd = ZSTD_createCDict(d, dn, level); r = ZSTD_compress_usingCDict(c, out, cap, in, n, cd); ZSTD_freeCDict(cd);
+    } else if (!strncmp(entry, "blcdict", 7)) {
+        /* buffer-less API with a digested dictionary; the input arrives in segments that are NOT contiguous in memory
+         * (separate allocations, the first one tiny), as a caller re-using small I/O buffers would supply it */
+        ZSTD_CDict* cd = ZSTD_createCDict(d, dn, level);
+        size_t cuts[5]; unsigned char* seg[4]; size_t k, op = 0;
+        cuts[0] = 0; cuts[1] = n < 5 ? n : 5; cuts[2] = cuts[1] + (n - cuts[1]) / 3; cuts[3] = cuts[2] + (n - cuts[2]) / 2; cuts[4] = n;
+        r = cd ? ZSTD_compressBegin_usingCDict(c, cd) : (size_t)-ZSTD_error_memory_allocation;
+        for (k = 0; k < 4; k++) {
+            size_t const len = cuts[k + 1] - cuts[k]; size_t w;
+            seg[k] = (unsigned char*)malloc(len + 64 + 4096 * k); memcpy(seg[k] + 32, in + cuts[k], len);
+            if (ZSTD_isError(r)) continue;
+            w = (k == 3) ? ZSTD_compressEnd(c, out + op, cap - op, seg[k] + 32, len) : ZSTD_compressContinue(c, out + op, cap - op, seg[k] + 32, len);
+            if (ZSTD_isError(w)) r = w; else op += w;
+        }
+        if (!ZSTD_isError(r)) r = op;
+        for (k = 0; k < 4; k++) free(seg[k]);
+        ZSTD_freeCDict(cd);
     } else r = (size_t)-ZSTD_error_GENERIC;
     if (ZSTD_isError(r)) perr(id, r); else { printf("%s OK ", id); puthex(out, r); putchar('\n'); }
     ZSTD_freeCCtx(c); if (g_cdict) { ZSTD_freeCDict(g_cdict); g_cdict = NULL; }
@@ -182,6 +208,8 @@ static void cmd_D(char** t) {
         if (!ZSTD_isError(r)) { memset(out, 0, cap); r = ZSTD_decompress_usingDDict(dc, out, cap, f, fn, dd); }
         produced = r; ZSTD_freeDDict(dd);
     } else if (!strcmp(path, "loaddict")) { r = ZSTD_DCtx_loadDictionary(dc, d, dn);
+        if (!ZSTD_isError(r)) { r = ZSTD_decompressDCtx(dc, out, cap, f, fn); produced = r; }
+    } else if (!strcmp(path, "rawdict")) { r = ZSTD_DCtx_loadDictionary_advanced(dc, d, dn, ZSTD_dlm_byCopy, ZSTD_dct_rawContent);
         if (!ZSTD_isError(r)) { r = ZSTD_decompressDCtx(dc, out, cap, f, fn); produced = r; }
     } else if (!strcmp(path, "refprefix")) { r = ZSTD_DCtx_refPrefix(dc, d, dn);
         if (!ZSTD_isError(r)) { r = ZSTD_decompressDCtx(dc, out, cap, f, fn); produced = r; }
